@@ -420,8 +420,17 @@ func (ex *Exec) callFunc(f *FuncV, args []Value, st *State, site *ast.CallExpr) 
 		return ex.callExternal(&FuncV{Named: f.Obj.FullName(), Obj: f.Obj, Recv: f.Recv}, args, st, site)
 	}
 	recv := f.Recv
-	if len(ex.uninterp) > 0 && recv == nil && ex.uninterp[fi.Pkg.Name+"."+fi.Decl.Name.Name] {
-		return ex.callUninterpreted(fi, args, st)
+	if len(ex.uninterp) > 0 {
+		if recv == nil && ex.uninterp[fi.Pkg.Name+"."+fi.Decl.Name.Name] {
+			return ex.callUninterpreted(fi, args, st)
+		}
+		if recv != nil {
+			// method with a value receiver: the receiver is the first argument
+			if sig := fi.Obj.Type().(*types.Signature); sig.Recv() != nil && valueOnly(sig.Recv().Type()) &&
+				ex.uninterp[fi.Pkg.Name+"."+recvTypeName(sig.Recv().Type())+"."+fi.Decl.Name.Name] {
+				return ex.callUninterpreted(fi, append([]Value{recv}, args...), st)
+			}
+		}
 	}
 	if len(ex.prog.OpaqueSpec) > 0 {
 		rn := ""
@@ -640,10 +649,19 @@ func (ex *Exec) callOpaqueSpec(fi *FuncInfo, recv Value, args []Value, st *State
 	if recv != nil {
 		ex.flattenAny(recv, st, &leaves)
 	}
-	for _, a := range args {
+	sig := fi.Obj.Type().(*types.Signature)
+	for i, a := range args {
+		// slices always in the (length, contents) form, whatever their representation (nil,
+		// concrete backing array or unknown length), so that every application has one shape
+		if i < sig.Params().Len() {
+			if stp, ok := sig.Params().At(i).Type().Underlying().(*types.Slice); ok {
+				if sv, isSlice := a.(*SliceV); isSlice {
+					a = ex.toSym(st, sv, stp.Elem())
+				}
+			}
+		}
 		ex.flattenAny(a, st, &leaves)
 	}
-	sig := fi.Obj.Type().(*types.Signature)
 	if sig.Results().Len() != 1 {
 		unsupported("opaque spec function must have one result")
 	}
@@ -734,8 +752,12 @@ func (ex *Exec) callUninterpreted(fi *FuncInfo, args []Value, st *State) Value {
 	if len(res) != 1 {
 		unsupported("uninterpreted %s: exactly one result expected", fi.Decl.Name.Name)
 	}
-	ex.assumptions["calls of "+fi.Pkg.Name+"."+fi.Decl.Name.Name+" treated as an uninterpreted pure function in this block (no panic for in-range arguments and its meaning are established by the C06 lemmas that inline it)"] = true
-	return ex.ufResult("pure."+fi.Pkg.Name+"."+fi.Decl.Name.Name, res[0], flat, st)
+	nm := fi.Pkg.Name + "." + fi.Decl.Name.Name
+	if sig := fi.Obj.Type().(*types.Signature); sig.Recv() != nil {
+		nm = fi.Pkg.Name + "." + recvTypeName(sig.Recv().Type()) + "." + fi.Decl.Name.Name
+	}
+	ex.assumptions["calls of "+nm+" treated as an uninterpreted pure function in this block (no panic for in-range arguments and its meaning are established by lemmas of its own package that inline it)"] = true
+	return ex.ufResult("pure."+nm, res[0], flat, st)
 }
 
 func (ex *Exec) checkPure(fi *FuncInfo) {
